@@ -1,0 +1,33 @@
+// Copyright 2022-2026 Sauce Labs Inc., all rights reserved.
+//
+// This Source Code Form is subject to the terms of the Mozilla Public
+// License, v. 2.0. If a copy of the MPL was not distributed with this
+// file, You can obtain one at https://mozilla.org/MPL/2.0/.
+
+//go:build verif
+
+package pac
+
+import (
+	"context"
+	"net"
+)
+
+// Verification hooks (build tag "verif" only): setters for the unexported test seams of
+// ProxyResolverConfig, so that an out-of-package harness can inject deterministic DNS answers and
+// own addresses. Nothing here is compiled into regular builds.
+
+// VerifSetLookupIP sets the resolver used by dnsResolve, dnsResolveEx and the helpers built on them.
+func (c *ProxyResolverConfig) VerifSetLookupIP(f func(ctx context.Context, network, host string) ([]net.IP, error)) {
+	c.testingLookupIP = f
+}
+
+// VerifSetMyIPAddress sets the addresses myIpAddress reports (nil restores interface discovery).
+func (c *ProxyResolverConfig) VerifSetMyIPAddress(ips []net.IP) {
+	c.testingMyIPAddress = ips
+}
+
+// VerifSetMyIPAddressEx sets the addresses myIpAddressEx reports (nil restores interface discovery).
+func (c *ProxyResolverConfig) VerifSetMyIPAddressEx(ips []net.IP) {
+	c.testingMyIPAddressEx = ips
+}
